@@ -77,6 +77,10 @@ func (e *pathEnv) nilnessOf(v ssa.Value) nilness {
 		}
 	case *ssa.ChangeInterface:
 		return e.nilnessOf(x.X)
+	case *ssa.UnOp:
+		if g, ok := x.X.(*ssa.Global); ok && nonNilErrGlobals[g] {
+			return nonNil
+		}
 	case *ssa.Phi:
 		// unresolved phi: known only if every edge agrees
 		if e.depth > 6 {
@@ -315,3 +319,8 @@ func (c *Ctx) explore(b *ssa.BasicBlock, idx int, env *pathEnv, cb exploreCB) {
 func newEnvAt(b *ssa.BasicBlock) *pathEnv {
 	return &pathEnv{phis: map[*ssa.Phi]ssa.Value{}, facts: domFacts(b)}
 }
+
+// nonNilErrGlobals: package-level error variables that are initialised once
+// with a constructed error (errors.New, fmt.Errorf, &T{}) and never reassigned
+// (sentinel errors). Filled by Ctx.initSentinels.
+var nonNilErrGlobals = map[*ssa.Global]bool{}
